@@ -23,7 +23,10 @@ RULE = ("operations: real tlparser.ParseSchema vs the Lean model on PRNG-generat
         "comments in every position, section switches, excluded definitions), every schema file of the repository, "
         "mutated texts and every prefix of some schemas (termination / no panic), the classification computed by "
         "gen.NewGenerator, and the real tlgen binary built from the working tree (two runs byte-identical, go build + "
-        "go vet of the output with a stub Client, declarations read back with go/ast). distinct = distinct operation "
+        "go vet of the output with a stub Client, declarations read back with go/ast), and in the harness process itself: "
+        "ParseSchema once, then gen.NewGenerator + Generate from that same schema object by three generators (one of them "
+        "twice) and from a fresh parse — all outputs byte-identical to the first, the caller's schema object deeply "
+        "unchanged (slices up to capacity). distinct = distinct operation "
         "lines; each is compared with the Lean model and judged against the structure / declarations the harness's own "
         "schema generator (or its independent line reader) knows the text to declare")
 
@@ -31,7 +34,7 @@ RULE = ("operations: real tlparser.ParseSchema vs the Lean model on PRNG-generat
 def run(ctx):
     ctx.assumptions += [
         "the Go compiler: 'the generated package compiles' is observed (go build + go vet), not modelled",
-        "reproducibility is observed on two runs of the generator per schema (map iteration order is runtime behaviour); "
+        "reproducibility is observed on two runs of the generator binary per schema and on five in-process generations (four from one parsed schema object) (map iteration order is runtime behaviour); "
         "the go/ast fact that every map range in gen/ is a known site followed by its sort is supporting evidence only",
         "gen/utils.go goify (third-party case splitter) is a parameter of the model; the harness links Go declarations to "
         "schema definitions through constructor ids and compares names up to case, '_' and '.'",
